@@ -165,6 +165,29 @@ func (fx *FX) inlineCall(fr *frame, st *State, callee *ssa.Function, args []Val,
 	n := callee.Signature.Results().Len()
 	out := make([]Val, n)
 	for i := 0; i < n; i++ {
+		// nil on some exits, one and the same address on the others: keep the address symbolic
+		if len(exits) > 1 {
+			var addr *Addr
+			var nilReach []Term
+			ok, nAddr := true, 0
+			for _, x := range exits {
+				r := x.results[i]
+				switch {
+				case r.Addr != nil && r.Addr.Kind == "elem" && r.NilIf == nil:
+					addr = r.Addr
+					nAddr++
+				case r.Addr == nil && r.T.Sort == SRef && r.T.S == "0":
+					nilReach = append(nilReach, x.st.reach)
+				default:
+					ok = false
+				}
+			}
+			if ok && nAddr == 1 && len(nilReach) > 0 {
+				c := fx.define("nilif_"+callee.Name(), Or(nilReach...))
+				out[i] = Val{Addr: addr, Typ: callee.Signature.Results().At(i).Type(), NilIf: &c}
+				continue
+			}
+		}
 		var vs []Term
 		for _, x := range exits {
 			vs = append(vs, fx.termOf(nf, x.st, x.results[i]))
